@@ -526,7 +526,7 @@ func init() {
 				}
 			}})
 		}
-		us = append(us, coldUnits(tier, "nasConvert", "lists")...)
+		us = append(us, coldUnits(tier, "nasConvert", "lists", "bad-input")...)
 		us = append(us, coldEntryUnits(tier, "nasConvert", "lists")...)
 		return us
 	}
